@@ -321,6 +321,10 @@ func classify(p *proc, dflt string) *death {
 		where = "HARNESS"
 	}
 	d.Signature = class + "@" + where
+	if len(nexus) == 0 && (d.Kind == "race" || harnessFirst) {
+		// nothing of the router is involved: a defect of this harness, not a verdict
+		d.Signature = "harness:" + class
+	}
 	return d
 }
 
